@@ -209,7 +209,7 @@ class HPAngle(object):
         self.hp_angle = float(hp_angle)
         # 13 decimal places (1e-9 arc-second resolution), as in hp2dec():
         # more digits expose the binary tail of valid values such as 0.15
-        hp_dec_str = f'{self.hp_angle:.13f}'.split('.')[1]
+        hp_dec_str = f'{self.hp_angle:.{_hp_places(self.hp_angle)}f}'.split('.')[1]
         if int(hp_dec_str[0]) > 5:
             raise ValueError(f'Invalid HP Notation: 1st decimal place greater '
                              f'than 5: {self.hp_angle}')
@@ -959,7 +959,10 @@ def dec2hp(dec):
     # are between 256 and 512 degrees. Precision improves for smaller angles.
     # In calculating the variable 'second' the precision is degraded by a factor of 3600 
     # Therefore 'second' should be rounded to 9 DP and tested for carry.
-    if round(second, 9) == 60:
+    # (8 DP from 512 degrees, where a float holds only 12 decimal places)
+    sec_places = 9 if abs(dec) < 512 else 8
+    second = round(second, sec_places)
+    if second == 60:
         second = 0
         minute += 1
         if minute == 60:
@@ -1041,6 +1044,12 @@ def dec2ddm(dec):
 
 # Functions converting from Hewlett-Packard (HP) format to other formats
 
+def _hp_places(hp):
+    # decimal places at which an HP float is read: 13 (1e-9 arc-seconds) where
+    # float64 can hold them, 12 from 512 degrees (one ulp there is 1.1e-13)
+    return 13 if abs(hp) < 512 else 12
+
+
 def hp2dec(hp):
     """
     Converts HP Notation to Decimal Degrees
@@ -1051,7 +1060,7 @@ def hp2dec(hp):
     """
     # Check if 1st and 3rd decimal place greater than 5 (invalid HP Notation)
     hp = float(hp)
-    hp_deg_str, hp_mmss_str = f'{hp:.13f}'.split('.')
+    hp_deg_str, hp_mmss_str = f'{hp:.{_hp_places(hp)}f}'.split('.')
     if int(hp_mmss_str[0]) > 5:
         raise ValueError(f'Invalid HP Notation: 1st decimal place greater '
                          f'than 5: {hp}')
@@ -1123,7 +1132,7 @@ def hp2dms(hp):
     # parse the 13-decimal string as hp2dec() does: float divmod mis-reads
     # values such as 2.01 as 2 deg 0' 99.99999"
     hp = float(hp)
-    hp_deg_str, hp_mmss_str = f'{abs(hp):.13f}'.split('.')
+    hp_deg_str, hp_mmss_str = f'{abs(hp):.{_hp_places(hp)}f}'.split('.')
     degree = int(hp_deg_str)
     minute = int(hp_mmss_str[:2])
     second = float(hp_mmss_str[2:4] + '.' + hp_mmss_str[4:])
@@ -1141,7 +1150,7 @@ def hp2ddm(hp):
     """
     # parse the 13-decimal string as hp2dec() does (see hp2dms)
     hp = float(hp)
-    hp_deg_str, hp_mmss_str = f'{abs(hp):.13f}'.split('.')
+    hp_deg_str, hp_mmss_str = f'{abs(hp):.{_hp_places(hp)}f}'.split('.')
     degree = int(hp_deg_str)
     second = float(hp_mmss_str[2:4] + '.' + hp_mmss_str[4:])
     minute = int(hp_mmss_str[:2]) + (second / 60)
@@ -1244,20 +1253,24 @@ def dd2sec(dd):
 def dec2hp_v(dec):
     # work in whole nano-arc-seconds (1e-9" is the resolution of HP notation)
     # so that no field can reach 60 through floating point error
-    total = (abs(dec) * 3600 * 1e9 + 0.5) // 1
-    minute, second = divmod(total, 60 * 1e9)
+    # (units of 1e-8" from 512 degrees, where a float holds only 12 places)
+    unit = 1e9 - 9e8 * (abs(dec) >= 512)
+    total = (abs(dec) * 3600 * unit + 0.5) // 1
+    minute, second = divmod(total, 60 * unit)
     degree, minute = divmod(minute, 60)
-    hp = degree + (minute / 100) + (second / 1e9 / 10000)
+    hp = degree + (minute / 100) + (second / unit / 10000)
     hp[dec <= 0] = -hp[dec <= 0]
     return hp
 
 
 def hp2dec_v(hp):
     # read the HP value at 13 decimal places, as hp2dec() does
-    total = (abs(hp) * 1e13 + 0.5) // 1
-    degree, mmss = divmod(total, 1e13)
-    minute, second = divmod(mmss, 1e11)
-    dec = degree + (minute / 60) + (second / 1e9 / 3600)
+    # (12 places from 512 degrees, see _hp_places)
+    scale = 1e13 - 9e12 * (abs(hp) >= 512)
+    total = (abs(hp) * scale + 0.5) // 1
+    degree, mmss = divmod(total, scale)
+    minute, second = divmod(mmss, scale / 100)
+    dec = degree + (minute / 60) + (second / (scale / 10000) / 3600)
     dec[hp <= 0] = -dec[hp <= 0]
     return dec
 
